@@ -927,6 +927,8 @@ class Interp:
         if isinstance(s, ast.AugAssign):
             sym = self.sym_of(s.target)
             v = self.ev(s.value, st)
+            if sym is None and self.record and isinstance(s.target, ast.Subscript):
+                self.substores.append((s.target, st.copy()))
             if sym and sym.startswith("self."):
                 self.attr_writes.add(sym[5:])
                 st.may["$stores"] = st.may.get("$stores", frozenset()) | {sym[5:]}
